@@ -490,3 +490,120 @@ Proof.
     destruct Ia as [Ia|[Ia|[Ia|[Ia|[]]]]]; destruct Ib as [Ib|[Ib|[Ib|[Ib|[]]]]]; subst a b;
       try reflexivity; vm_compute in Hk; discriminate Hk.
 Qed.
+
+(* ====================================================================================================== *)
+(* fourth pass: the candidate pair loop on circular records; interleaved completeness for any wrap point;   *)
+(* classes of protocluster                                                                                 *)
+(* ====================================================================================================== *)
+
+(* ---- _find_interleaved_candidates: the candidate / candidate pair loop ---- *)
+(* the pair loop compares EVERY pair of positions of the candidate list: two candidates whose (joint) cores overlap
+   give a group whatever their order in the list, whatever their coordinates, linear or circular (the loop has no
+   early exit; `cc` = the candidates with their core locations) *)
+Theorem C05_candidate_pair_scan_complete : forall cc l1 a l2 b l3, cc = l1 ++ a :: l2 ++ b :: l3 ->
+  overlap (snd a) (snd b) = true -> In (cmem (fst a) ++ cmem (fst b)) (find_interleaved_candidates cc).
+Proof. exact Ring.cand_pair_scan_complete. Qed.
+Print Assumptions C05_candidate_pair_scan_complete.
+
+(* hence the "handle origin-crossing pairs" block (first against last candidate) is redundant: the groups returned are
+   exactly the groups of the pair loop *)
+Theorem C05_origin_block_redundant : forall cc g,
+  In g (find_interleaved_candidates cc) <-> In g (map Ring.cc_group (pairs_rel Ring.cc_rel cc)).
+Proof. exact Ring.origin_block_redundant. Qed.
+Print Assumptions C05_origin_block_redundant.
+
+(* why the loop must not stop early on a circular record: three chemical hybrids on a ring of 20000 bases, X = {0,1}
+   crossing the origin (sorts first; its .end = 500 is the end of its post-origin part), Y = {3,2} before the origin
+   with a core overlapping the pre-origin part of the core of X, Z = {4,5} nested in the neighbourhood of Y.  The model
+   (= the code) forms INTERLEAVED {0,1,3,2} and every clause about the meaning of the kinds holds; the pair loop finds
+   exactly the pair (X, Y); a loop with the early exit `if other.start > candidate.end: break` (pairs_early_exit, NOT
+   the code) finds no pair at all, and the origin block compares X with Z only *)
+Theorem C05_ring_pair_scan_witness :
+  (exists out, create_candidates r8_protos (Some 20000) = Ok out /\
+     view out = [(K_NEIGHBOURING, [0; 1; 6; 3; 2; 4; 5]); (K_INTERLEAVED, [0; 1; 3; 2]); (K_HYBRID, [0; 1]);
+                 (K_SINGLE, [7]); (K_SINGLE, [6]); (K_HYBRID, [3; 2]); (K_HYBRID, [4; 5])] /\
+     forallb (fun b => b) (kind_clauses r8_protos (Some 20000) (map to_ocand out)) = true) /\
+  map ids_of r8_cc = [[0; 1]; [3; 2]; [4; 5]] /\
+  map (fun ck => (fstart (cloc (fst ck)), fend (cloc (fst ck)))) r8_cc = [(19500, 500); (18900, 19950); (19000, 19180)] /\
+  map (fun xy => (ids_of (fst xy), ids_of (snd xy))) (pairs_rel Ring.cc_rel r8_cc) = [([0; 1], [3; 2])] /\
+  pairs_early_exit r8_cc = [] /\
+  (match first_last r8_cc with Some (f, l) => (ids_of f, ids_of l, Ring.cc_rel f l) | None => ([], [], true) end)
+  = ([0; 1], [4; 5], false).
+Proof. exact ring_three_hybrids_witness. Qed.
+Print Assumptions C05_ring_pair_scan_witness.
+
+(* ---- interleaved: completeness for ANY wrap point (linear and circular records, origin-crossing cores included) ---- *)
+(* two candidates whose joint cores overlap (cores = connect_locations with the wrap point, overlap of locations on the
+   ring), two protoclusters whose cores overlap, a candidate and a protocluster whose cores overlap: always inside one
+   interleaved group.  The groups found by the origin walk (_find_cross_origin_interleaved) only add to the list
+   handed to _merge_sets.  Generalises C05_interleaved_complete_cc/_pp/_cp_linear *)
+Theorem C05_interleaved_complete_cc : forall clusters cands w groups un a b ka kb,
+  find_interleaved clusters cands w = Ok (groups, un) ->
+  In a cands -> In b cands -> a <> b -> ccore w a = Ok ka -> ccore w b = Ok kb -> overlap ka kb = true ->
+  exists g, In g groups /\ subsetP (cmem a) g /\ subsetP (cmem b) g.
+Proof. exact (Ring.interleaved_complete_cc_any true). Qed.
+Print Assumptions C05_interleaved_complete_cc.
+Theorem C05_interleaved_complete_pp : forall clusters cands w groups un x y,
+  find_interleaved clusters cands w = Ok (groups, un) ->
+  In x clusters -> In y clusters -> x <> y ->
+  (forall p, In p (pcore x) -> ps p < pe p) -> (forall p, In p (pcore y) -> ps p < pe p) ->
+  overlap (pcore x) (pcore y) = true ->
+  exists g, In g groups /\ inS (pid x) g /\ inS (pid y) g.
+Proof. exact (Ring.interleaved_complete_pp_any true). Qed.
+Print Assumptions C05_interleaved_complete_pp.
+Theorem C05_interleaved_complete_cp : forall clusters cands w groups un c k cl,
+  find_interleaved clusters cands w = Ok (groups, un) ->
+  In c cands -> ccore w c = Ok k -> In cl clusters -> overlap k (pcore cl) = true ->
+  exists g, In g groups /\ subsetP (cmem c) g /\ inS (pid cl) g.
+Proof. exact Ring.interleaved_complete_cp_any. Qed.
+Print Assumptions C05_interleaved_complete_cp.
+
+(* ---- classes of protocluster ---- *)
+(* `pdefs` is the value of the PUBLIC property definition_cdses.  (1) a SideloadedProtocluster (flag false) has none,
+   whatever add_cds recorded in the private set; (2) a rule-based Protocluster has exactly the private set; (3) a
+   protocluster without defining genes shares a defining gene with nobody; (4) it is in none of the pairs handed to
+   _merge_sets by _find_hybrids *)
+Theorem C05_sideloaded_no_defining_genes :
+  (forall genes p, pdefs (with_defs_k genes (p, false)) = []) /\
+  (forall genes p, pdefs (with_defs_k genes (p, true)) = private_defs genes p) /\
+  (forall a b, pdefs a = [] -> defs_intersect a b = false /\ defs_intersect b a = false) /\
+  (forall clusters g x, In g (hybrid_pair_groups clusters) -> In x g -> pdefs x <> []).
+Proof. exact sideloaded_summary. Qed.
+Print Assumptions C05_sideloaded_no_defining_genes.
+
+(* (5) so a protocluster without defining genes is a member of a hybrid group only by containment: the group consists
+   of a transitive group m of protoclusters sharing defining genes - all of which HAVE defining genes - and the
+   protocluster is not in m, its core lies inside connect_locations of m's cores *)
+Theorem C05_no_defs_only_by_containment : forall clusters w groups un, find_hybrids clusters w = Ok (groups, un) ->
+  forall g x, In g groups -> In x g -> pdefs x = [] ->
+  exists m core, In m (merge_sets (hybrid_pair_groups clusters)) /\
+    connect_locations (map pcore m) w = Ok core /\ (forall y, In y m -> In y g /\ pdefs y <> []) /\
+    ~ In x m /\ contains core (pcore x) = true.
+Proof. exact Ring.no_defs_only_by_containment. Qed.
+Print Assumptions C05_no_defs_only_by_containment.
+
+(* Record level, through Protocluster.add_cds: gene 0 has CORE functions for the products of protoclusters 0 and 1 and
+   lies in both cores.  add_cds records it in the private set of both; with 1 sideloaded the public property of 1 is
+   empty and the result is INTERLEAVED {0,1}; were 1 rule-based the result would be CHEMICAL_HYBRID {0,1} *)
+Theorem C05_sideloaded_witness :
+  map (fun pk => private_defs sl_genes (fst pk)) (sl_protos false) = [[0]; [0]; []; []] /\
+  map (fun pk => pdefs (with_defs_k sl_genes pk)) (sl_protos false) = [[0]; []; []; []] /\
+  (exists out, record_create 4000 false sl_genes (sl_protos false) = Ok out /\
+               view out = [(K_INTERLEAVED, [0; 1]); (K_INTERLEAVED, [3; 2])]) /\
+  (exists out, record_create 4000 false sl_genes (sl_protos true) = Ok out /\
+               view out = [(K_HYBRID, [0; 1]); (K_INTERLEAVED, [3; 2])]).
+Proof. exact sideloaded_witness. Qed.
+Print Assumptions C05_sideloaded_witness.
+
+(* non-vacuity of C05_no_defs_only_by_containment: protocluster 2 has no defining genes and its core [45,55) lies inside
+   the joint core [40,70) of the sharing pair {0,1}: it is a member of the hybrid group *)
+Example C05_ex_no_defs_contained :
+  exists groups un, find_hybrids [ex_q 0 0 100 40 60 [7]; ex_q 1 20 120 50 70 [7]; ex_q 2 30 90 45 55 []] None = Ok (groups, un)
+    /\ map (map pid) groups = [[0; 1; 2]] /\ pdefs (ex_q 2 30 90 45 55 []) = [].
+Proof.
+  destruct (find_hybrids [ex_q 0 0 100 40 60 [7]; ex_q 1 20 120 50 70 [7]; ex_q 2 30 90 45 55 []] None) as [[g u]|k] eqn:E;
+    vm_compute in E; [|discriminate E].
+  inversion E. eexists. eexists. split; [reflexivity|]. split; vm_compute; reflexivity.
+Qed.
+(* C05_interleaved_complete_* at a wrap point and C05_candidate_pair_scan_complete: C05_ring_pair_scan_witness runs the
+   formation on a circular record where the pair (X, Y) is found and INTERLEAVED {0,1,3,2} is formed *)
